@@ -144,6 +144,12 @@ def run(pid, tier, seed, replay=None, nworkers=None, keep=False):
             fid = None
         if fid and fid in open_findings:
             known_hits[fid] = known_hits.get(fid, 0) + 1
+            wpath = os.path.join(ROOT, open_findings[fid].get("witness", f"replays/findings/{fid}_{pid}.json"))
+            if not replay and not os.path.exists(wpath):  # keep one replayable witness per known finding
+                os.makedirs(os.path.dirname(wpath), exist_ok=True)
+                with open(wpath, "w") as f:
+                    json.dump({"property": pid, "tier": tier, "seed": seed, "case": cases[i], "violation": v,
+                               "finding": fid, "tree": env.tree_fingerprint()}, f, indent=1)
         else:
             new.append((i, v))
 
